@@ -21,9 +21,9 @@ def splitComma : Bytes → List Bytes
 /-- remove surrounding `isspace` bytes -/
 def strip (x : Bytes) : Bytes := rtrim (ltrim x)
 
-/-- The members of a comma list, trimmed. Empty members — nothing or only the optional whitespace that separates members
-(SP HT, and CR LF which cannot occur in a field line) — are ignored (RFC 9110 §5.6.1.2); every other member counts,
-so that a member made of other white space only (VT, FF) is a member without a value, i.e. an invalid one. -/
+/-- The members of a comma list, trimmed; blank members (nothing but white space: RFC 9110 §5.6.1.2 empty elements, read with the
+`isspace` notion of white space the parser uses everywhere) are ignored. `isListLead` is the comma plus exactly the `isspace` bytes;
+`elements_spec` restates this as "non-blank members, trimmed". -/
 def elements (v : Bytes) : List Bytes := ((splitComma v).filter (fun m => !m.all isListLead)).map strip
 
 /-- `1*DIGIT` denoting a number that fits `int64_t` -/
@@ -35,9 +35,8 @@ value has a comma, the whole value otherwise -/
 def fieldValues (relaxed : Bool) (v : Bytes) : List Bytes :=
   if relaxed && v.contains 44 then elements v else [strip v]
 
-/-- The region outside of which `checkList` is wrong (finding C26-list-truncated): every list member that is blank after
-trimming consists only of the bytes `strListGetItem` skips between items (SP HT CR LF), i.e. no member is made of VT/FF
-(and separators) only. -/
+/-- Every list member that is blank after trimming consists only of the bytes `strListGetItem` skips between items. Since 43aac5c
+this holds for every value (`blankOk_all`); before, a VT/FF-only member violated it (former finding C26-list-truncated). -/
 def BlankOk (v : Bytes) : Prop := ∀ e ∈ splitComma v, strip e = [] → e.all isListLead = true
 
 instance (v : Bytes) : Decidable (BlankOk v) := by unfold BlankOk; infer_instance
